@@ -130,7 +130,58 @@ fn family(thorough: bool) -> Vec<(String, GraphSpec)> {
             out.push((format!("{name}/p{p}"), spec));
         }
     }
+    out.extend(duplicate_key_graphs());
     out
+}
+
+/// Graphs whose elements store the SAME key more than once: a hub node with an
+/// edge to each of several nodes that were inserted with a values list
+/// repeating a key (new elements are written without replacing). The repeated
+/// key (k1) comes before or after the other order key (k2), with equal and
+/// with different values. Reading of a repeated key: its FIRST stored
+/// occurrence decides (assumption, stated in the evidence).
+fn duplicate_key_graphs() -> Vec<(String, GraphSpec)> {
+    let i = DbValue::I64;
+    let kv = |key: &str, v: i64| (k(key), i(v));
+    let sets: Vec<(&str, Vec<Vec<(DbValue, DbValue)>>)> = vec![
+        (
+            "duplicate-key-before-the-other",
+            vec![
+                vec![kv("k1", 1), kv("k1", 1), kv("k2", 2)],
+                vec![kv("k1", 1), kv("k2", 1)],
+                vec![kv("k1", 1), kv("k1", 1), kv("k2", 0)],
+                vec![kv("k1", 0), kv("k2", 5)],
+                vec![kv("k1", 1)],
+                vec![kv("k1", 1), kv("k1", 1), kv("k1", 1), kv("k2", 3)],
+            ],
+        ),
+        (
+            "duplicate-key-after-the-other",
+            vec![
+                vec![kv("k2", 2), kv("k1", 1), kv("k1", 1)],
+                vec![kv("k2", 1), kv("k1", 1)],
+                vec![kv("k2", 2), kv("k2", 2), kv("k1", 0)],
+                vec![kv("k1", 1), kv("k1", 1)],
+                vec![kv("k3", 7), kv("k2", 0), kv("k2", 0), kv("k1", 1)],
+            ],
+        ),
+        (
+            "duplicate-key-with-different-values",
+            vec![
+                vec![kv("k1", 1), kv("k1", 2), kv("k2", 3)],
+                vec![kv("k1", 2), kv("k1", 1), kv("k2", 1)],
+                vec![kv("k1", 1), kv("k2", 2)],
+                vec![kv("k1", 2), kv("k2", 0)],
+                vec![kv("k2", 1), kv("k2", 4), kv("k1", 1)],
+            ],
+        ),
+    ];
+    sets.into_iter()
+        .map(|(name, nodes)| {
+            let ops: Vec<Op> = (0..nodes.len()).map(|n| Op::Edge(0, 1 + n as u8)).collect();
+            (name.to_string(), GraphSpec { nodes: 1, ops, props: vec![], aliases: vec![], valued_nodes: nodes })
+        })
+        .collect()
 }
 
 // ---------------------------------------------------------------------------
@@ -513,7 +564,7 @@ pub fn run(args: &Args) -> i32 {
     }
     report.set("evaluations", json!(searches.load(AO::SeqCst)));
     report.set("distinct_nontrivial", json!(nontrivial.len()));
-    report.set("rule", json!("graph family (9 shapes [thorough: + every history of length <= 3 on two and <= 2 on three node slots] x 3 property patterns) x every search kind and origin (bfs/dfs from/to every element, path between every ordered pair of nodes, elements) x 7 condition variants (3 of them prune the traversal: not_beyond keys, not_beyond ids, beyond keys) x 15 order_by lists x every (offset, limit) in ([0..n+3] + {2^64-2, 2^64-1})^2; one evaluation = one search on the real Db. distinct_nontrivial = distinct (graph, unsliced result sequence) with at least 2 elements"));
+    report.set("rule", json!("graph family (9 shapes [thorough: + every history of length <= 3 on two and <= 2 on three node slots] x 3 property patterns, + 3 graphs whose nodes store a key more than once) x every search kind and origin (bfs/dfs from/to every element, path between every ordered pair of nodes, elements) x 7 condition variants (3 of them prune the traversal: not_beyond keys, not_beyond ids, beyond keys) x 15 order_by lists x every (offset, limit) in ([0..n+3] + {2^64-2, 2^64-1})^2; one evaluation = one search on the real Db. distinct_nontrivial = distinct (graph, unsliced result sequence) with at least 2 elements"));
     report.set("exhaustive", json!(true));
     report.set("graphs", json!(fam.len()));
     report.set("graph_names", json!(fam.iter().map(|f| f.0.clone()).take(40).collect::<Vec<_>>()));
@@ -524,6 +575,7 @@ pub fn run(args: &Args) -> i32 {
     report.set("violating_cases", json!(violating.load(AO::SeqCst)));
     report.set("types_under_one_key", json!(fam.iter().flat_map(|f| f.1.props.iter().map(|p| type_name(&p.2))).collect::<std::collections::BTreeSet<_>>()));
     report.assume("between stored values of different types under one key the order is the public Ord of DbValue (the statement defines none); within one type the natural order");
+    report.assume("an element that stores a key more than once is ordered by the FIRST stored occurrence of that key (nothing documents repeated keys; first occurrence is what a lookup of the key finds)");
     report.assume("limit 0 = unlimited and offset 0 = none, as documented");
     report.finish()
 }
